@@ -671,3 +671,136 @@ def _b_model_file(seed, tier):
 
 
 Bounded('C16', 'model_written_reloaded_same_spectrum', _b_model_file, doc='whole program + file + loader: bounded only')
+
+
+# ================================================================== construct, then write: every constructor keyword is stored with its value
+# Scenario units: the REAL constructor is executed symbolically (arbitrary parameter values), then the REAL write() on that object
+# with a recording output group.  Claim: every keyword the constructor takes is written under its own name with the value the
+# object was constructed with -- for all values, which is what makes a reload by keyword (taurex.util.hdf5) faithful.
+from pyvc import source as _src
+from contracts import c11 as _c11          # conversion_factor is used by contract (BasePlanet constructor)
+from pyvc.core import to_real as _to_real
+
+
+def _h_group(kind):
+    def h(ex, st, o, args, kwargs, node):
+        if kind == 'create_group':
+            _ev(st, 'create_group', o.ident, args[0])
+            return AbsObj('Group', '%s/%s' % (o.ident, args[0]), {})
+        _ev(st, kind, o.ident, args[0], args[1] if len(args) > 1 else None)
+        return None
+    return h
+
+
+_OUT_ABS2 = {'Group.create_group': _h_group('create_group'), 'Output.create_group': _h_group('create_group')}
+for _k in ('write_scalar', 'write_string', 'write_array', 'write_string_array', 'write_list'):
+    _OUT_ABS2['Group.' + _k] = _h_group(_k)
+    _OUT_ABS2['Output.' + _k] = _h_group(_k)
+
+
+def _ctor_keywords(qual):
+    """(names, defaults) of the constructor, from the current source"""
+    ci, fn = _src.find_method(qual.split(':')[1], '__init__')
+    import ast as _ast
+    names = [a.arg for a in fn.args.args][1:]
+    defs = [_ast.literal_eval(d) if not isinstance(d, _ast.Name) else None for d in fn.args.defaults]
+    defs = [None] * (len(names) - len(defs)) + defs
+    return ci, fn, names, defs
+
+
+def _cw_unit(qual, strings=(), arrays=(), skip=(), alias=None, extra_abs=None, convert=None, props='C16', write_in=None, assume=None, ints=()):
+    clsname = qual.split(':')[1]
+    alias = alias or {}
+    wqual = (qual.split(':')[0] + ':' + write_in) if write_in else qual
+
+    def args_for(c):
+        ci, fn, names, defs = _ctor_keywords(qual)
+        vals = {}
+        for nm, df in zip(names, defs):
+            if nm in strings:
+                vals[nm] = strings[nm] if isinstance(strings, dict) and strings[nm] is not None else (df if isinstance(df, str) else 'H2O')
+            elif nm in arrays:
+                vals[nm] = c.array('kw_' + nm, (c.int('len_' + nm),))
+            elif nm in ints:
+                vals[nm] = c.int('kw_' + nm)
+            else:
+                vals[nm] = c.real('kw_' + nm)
+        return ci, fn, vals
+
+    def params(c):
+        return dict(self=ObjSpec(clsname), output=AbsObj('Output', 'out', {}))
+
+    def setup(ex, st, c):
+        ci, fn, vals = args_for(c)
+        from pyvc.unit import materialize
+        kw = {k: (materialize(c, st, v) if isinstance(v, Arr) else v) for k, v in vals.items()}
+        c._cw_args = kw
+        for a in (assume(kw) if assume else []):
+            st.assume(a)
+        ex.inline_call(ci, fn, [st.env['self']], kw, st, fn)
+        st.trace[:] = [e for e in st.trace if e[0] != 'ev']          # what the constructor did is not part of the claim
+
+    def post(c, v0, v1, r):
+        kw = c._cw_args
+        written = {}
+        for e in (c.trace or []):
+            if e[0].startswith('write_'):
+                written[e[2]] = e[3]
+        d = {}
+        heap = c.raw['state'].heap
+        for nm, val in kw.items():
+            if nm in skip:
+                continue
+            key = alias.get(nm, nm)
+            ok = key in written
+            d['%s_is_written' % nm] = ok
+            if not ok:
+                continue
+            got = written[key]
+            if isinstance(val, str) or val is None:
+                d['%s_has_the_constructed_value' % nm] = got == val
+            elif isinstance(val, Ref):
+                A, B = heap.get(val.id), (heap.get(got.id) if isinstance(got, Ref) else None)
+                j = z3.Int('j?w')
+                d['%s_has_the_constructed_value' % nm] = isinstance(B, Arr) and z3.simplify(A.shape[0] - B.shape[0]).eq(z3.IntVal(0)) and \
+                    z3.simplify(_to_real(A.elem((j,))) - _to_real(B.elem((j,)))).eq(z3.RealVal(0))
+            else:
+                want = convert[nm](val) if convert and nm in convert else val
+                same = is_sym(got) and z3.simplify(_to_real(got) - _to_real(want)).eq(z3.RealVal(0))
+                # (unit conversions multiply and divide by a positive constant: left to the solver when not syntactic)
+                d['%s_has_the_constructed_value' % nm] = True if same else ((_to_real(got) == _to_real(want)) if is_sym(got) else False)
+        return d
+    ab = dict(_OUT_ABS2)
+    ab.update({'call:compile_fitparams': lambda ex, st, args, kwargs, node: None, 'call:add_fittable_param': lambda ex, st, args, kwargs, node: None,
+               'call:add_derived_param': lambda ex, st, args, kwargs, node: None,
+               'call:molecule_texlabel': lambda ex, st, args, kwargs, node: '<latex label>'})
+    ab.update(extra_abs or {})
+    return Unit(props, wqual + '.write', params, post=post, setup=setup, abstract=ab, bounds=[], variant='constructed:' + clsname, safety=(),
+                short=clsname + '.write@constructed',
+                doc='construct-then-write scenario: the real constructor executed symbolically for arbitrary parameter values, then the real '
+                    'write(): every constructor keyword is stored under its own name with the value the object was constructed with')
+
+
+_noop2 = lambda ex, st, args, kwargs, node: None
+CW_ISO = _cw_unit('taurex.data.profiles.temperature.isothermal:Isothermal')
+CW_GUI = _cw_unit('taurex.data.profiles.temperature.guillot:Guillot2010', extra_abs={'call:_check_values': _noop2})
+_T = 'taurex.data.profiles.temperature.'
+_G = 'taurex.data.profiles.chemistry.gas.'
+_C = 'taurex.contributions.'
+CW_NPT = _cw_unit(_T + 'npoint:NPoint', arrays=('temperature_points', 'pressure_points'),
+                  extra_abs={'call:generate_pressure_fitting_params': _noop2, 'call:generate_temperature_fitting_params': _noop2},
+                  assume=lambda kw: [z3.Int('len_temperature_points') == z3.Int('len_pressure_points'), kw['P_surface'] > 0, kw['P_top'] > 0])
+CW_PRS = _cw_unit('taurex.data.profiles.pressure.pressureprofile:SimplePressureProfile', ints=('nlayers',),
+                  assume=lambda kw: [kw['atm_min_pressure'] <= kw['atm_max_pressure'], kw['atm_min_pressure'] > 0, kw['nlayers'] >= 1])
+CW_PLN = _cw_unit('taurex.data.planet:Planet', skip=('planet_sma', 'planet_mass', 'planet_radius', 'planet_distance'), write_in='BasePlanet')
+# (mass / radius / distance: stored through astropy unit conversion and written through taurex.constants -- their agreement is a
+#  numeric fact about two tables, left to the bounded round trip)
+CW_STR = _cw_unit('taurex.data.stellar.star:BlackbodyStar', write_in='Star')
+CW_CGS = _cw_unit(_G + 'constantgas:ConstantGas', strings=('molecule_name',), extra_abs={'call:add_active_gas_param': _noop2})
+CW_TLG = _cw_unit(_G + 'twolayergas:TwoLayerGas', strings=('molecule_name',))
+CW_TPG = _cw_unit(_G + 'twopointgas:TwoPointGas', strings=('molecule_name',))
+CW_PWG = _cw_unit(_G + 'powergas:PowerGas', strings={'molecule_name': 'TiO', 'profile_type': 'VO'})
+CW_ARG = _cw_unit(_G + 'arraygas:ArrayGas', strings=('molecule_name',), arrays=('mix_ratio_array',))
+CW_SCL = _cw_unit(_C + 'simpleclouds:SimpleCloudsContribution')
+CW_LEE = _cw_unit(_C + 'leemie:LeeMieContribution')
+CW_FLT = _cw_unit(_C + 'flatmie:FlatMieContribution')
